@@ -175,7 +175,7 @@ class C02:
     excl = {'decimal-double-rounding': 0}
 
     def budget(self, tier):
-        return 1300 if tier == 'quick' else 30000
+        return 1300 if tier == 'quick' else 15000
 
     # (a) conversions ---------------------------------------------------------------
     def g_conv(self, ch):
